@@ -261,6 +261,8 @@ def check_headers(cx, e_id, f_id):
                 return None
 
             try:
+                from rules import resolve_tuple_merges
+                elems = [resolve_tuple_merges(cx, wb, x) for x in elems]
                 out = [(ev(x, field_leaf(1, widths, extra=extra)) + [0] * 8)[:8] for x in elems]
             except Unknown as ex:
                 inst.violation(wb.path, "writer bytes", "cannot interpret %s's byte literal: %s" % (w, ex))
